@@ -674,30 +674,95 @@ def _threadstate(ctx, cfg, prog):
 PREPROCESS = 'core::delaunay_triangulation::DelaunayTriangulation::preprocess_vertices_for_construction'
 
 
+def _variant_index(prog, adt, name):
+    """Discriminant of variant `name` of a field-less crate enum, read off its derived Debug impl (the arm of the
+    discriminant switch that loads the string constant `name`)."""
+    q = '<%s as std::fmt::Debug>::fmt' % adt
+    b = prog.bodies.get(q)
+    if b is None:
+        return None
+    for blk in b.blocks:
+        t = blk.term
+        if t.k != 'switch':
+            continue
+        for v, tg in t.values:
+            for s_ in b.blocks[tg].stmts:
+                if s_.kind == 'A' and s_.rv.k == 'use' and s_.rv.ops and s_.rv.ops[0].kind == 'k' and \
+                        str(s_.rv.ops[0].const.get('v', '')).strip('"') == name:
+                    return v
+    return None
+
+
 def _epsorder(ctx, cfg, prog, mod):
     """EPSORDER (after fix F27): the epsilon de-duplication passes keep the first vertex they visit of a group of
-    near-duplicates, so under a value-based insertion order their input must already be in a listing-independent order:
-    the vertex vector handed to each `dedup_vertices_epsilon_*` call in `preprocess_vertices_for_construction` has an
-    `order_vertices_*` call in its backward slice."""
-    ctx.rule('EPSORDER', 'the epsilon de-duplication is fed vertices in a canonical order')
+    near-duplicates, so under a value-based insertion order their input must already be in a listing-independent order.
+    In `preprocess_vertices_for_construction`, for each `dedup_vertices_epsilon_*` call: (a) the vertex vector has an
+    `order_vertices_*` call in its backward slice; (b) every definition of that vector that is NOT the result of such a call
+    (the caller's listing, `to_vec()`) lies on an arm of the switch on the insertion order that only the `Input` variant
+    reaches."""
+    ctx.rule('EPSORDER', 'the epsilon de-duplication is fed the caller\'s listing only under InsertionOrderStrategy::Input')
     b = ctx.anchor(cfg, PREPROCESS)
     if b is None:
         return
     al = mod.aliases(PREPROCESS)
+    ADT = 'core::delaunay_triangulation::InsertionOrderStrategy'
+    input_idx = _variant_index(prog, ADT, 'Input')
+    # the switch on the discriminant of the insertion-order parameter
+    order_param = next((i for i in range(1, b.nargs + 1) if b.locals[i] == ADT), None)
+    arms = {}
+    if order_param is not None:
+        for blk in b.blocks:
+            for s_ in blk.stmts:
+                if s_.kind == 'A' and s_.rv.k == 'discr' and s_.rv.place is not None and s_.rv.place.local == order_param and s_.place.is_local():
+                    t = blk.term
+                    if t.k == 'switch' and t.discr.place is not None and t.discr.place.local == s_.place.local:
+                        listed = {v: tg for v, tg in t.values}
+                        arms[blk.idx] = (listed, t.otherwise)
     n = 0
     for bb, t in b.calls():
         name = t.resolved or t.callee or ''
         if 'dedup_vertices_epsilon' not in name or not t.args or t.args[0].place is None:
             continue
         n += 1
+        short = name.rsplit('::', 1)[-1]
         leaves = valueflow.sources(b, al, t.args[0].place.local)
         ordered = sorted({(l[1].resolved or l[1].callee).rsplit('::', 1)[-1] for l in leaves if l[0] == 'call' and
                           'order_vertices' in (l[1].resolved or l[1].callee or '')})
-        ctx.ob('EPSORDER', '%s|%s' % (PREPROCESS, name.rsplit('::', 1)[-1]), cfg, bool(ordered),
-               'input of %s passes %s' % (name.rsplit('::', 1)[-1], ordered) if ordered else
-               'input of %s is the caller\'s listing: the first-visited survivor of a group of near-duplicates depends on the '
-               'order in which the caller listed them, also under Lexicographic / Morton / Hilbert ordering' % name.rsplit('::', 1)[-1],
-               site='%s:%d' % (b.file, t.line))
+        site = '%s:%d' % (b.file, t.line)
+        if not ordered:
+            ctx.ob('EPSORDER', '%s|%s' % (PREPROCESS, short), cfg, False,
+                   'input of %s is the caller\'s listing: the first-visited survivor of a group of near-duplicates depends on the '
+                   'order in which the caller listed them, also under Lexicographic / Morton / Hilbert ordering' % short, site=site)
+            continue
+        # (b) unordered definitions (to_vec of the parameter slice) reached by a non-Input variant
+        raw_blocks = [l[2] for l in leaves if l[0] == 'call' and (l[1].resolved or l[1].callee or '').endswith('to_vec')
+                      and not any('order_vertices' in ((t2.resolved or t2.callee or '')) and l[1].dest is not None and
+                                  any(o.place is not None and o.place.local == l[1].dest.local for o in t2.args)
+                                  for _, t2 in b.calls())]
+        bad = []
+        if input_idx is None or not arms:
+            ctx.ob('EPSORDER', '%s|%s|arms' % (PREPROCESS, short), cfg, False,
+                   'the switch on the insertion order / the discriminant of `Input` was not found: the rule cannot tell which arm '
+                   'hands over the caller\'s listing (fail closed)', site=site)
+            continue
+        for rb in raw_blocks:
+            for sw, (listed, otherwise) in arms.items():
+                targets = dict(listed)
+                all_idx = set(listed) | {'otherwise'}
+                for v, tg in list(listed.items()) + [('otherwise', otherwise)]:
+                    if v == input_idx:
+                        continue
+                    if rb == tg or rb in flow.reach_edges(b, [tg], avoid_blocks={sw}):
+                        # reachable from a non-Input arm: but only a problem if that arm does not also pass an ordering call
+                        # before the dedup call; the raw definition itself is what is handed over when no ordering call
+                        # lies between it and the dedup call
+                        bad.append((v, b.blocks[rb].term.line))
+        bad = sorted(set(bad), key=str)
+        ctx.ob('EPSORDER', '%s|%s' % (PREPROCESS, short), cfg, not bad,
+               'input of %s passes %s; the caller\'s listing is handed over on the Input arm only' % (short, ordered) if not bad else
+               'input of %s is the caller\'s listing (to_vec at line %s) also for insertion-order variant(s) %s, not only for Input: '
+               'the first-visited survivor of a group of near-duplicates then depends on the listing order' % (
+                   short, sorted({l for _, l in bad}), sorted({str(v) for v, _ in bad})), site=site)
     ctx.floor('epsilon de-duplication calls in the construction preprocessing', 1, n, cfg)
 
 
